@@ -893,54 +893,71 @@ def thread_known_discriminants(doc):
             guard += 1
             for P in blocks:
                 pt = P['term']
-                if pt.get('k') != 'goto' or not P['stmts']:
+                if pt.get('k') != 'goto' or not P['stmts'] or P.get('cleanup'):
                     continue
-                # follow empty goto chains
-                ti = pt['target']
-                hops = 0
-                while hops < 8 and not blocks[ti]['stmts'] and blocks[ti]['term'].get('k') == 'goto':
-                    ti = blocks[ti]['term']['target']
-                    hops += 1
-                T = blocks[ti]
-                if T is P or not T['stmts'] or len(T['stmts']) > 6 or T['term'].get('k') != 'switch' or T.get('cleanup'):
-                    continue
-                ds = T['stmts'][-1]
-                pre = T['stmts'][:-1]
-                if ds.get('k') != 'assign' or ds['rv'].get('k') != 'discriminant' or ds['rv']['place']['p']:
-                    continue
-                if T['term']['discr'].get('place') != ds['place']:
-                    continue
-                xl = ds['rv']['place']['l']
+                # the value built last in P (possibly moved on within P)
                 last = P['stmts'][-1]
-                if last.get('k') != 'assign' or last['place'] != {'l': xl, 'p': []}:
+                if last.get('k') != 'assign' or last['place']['p']:
                     continue
-                # x = move y with y built just before in this block (the return value of an inlined helper)
-                hops2 = 0
+                cur = last['place']['l']
                 pos = len(P['stmts']) - 1
-                while last['rv'].get('k') == 'use' and last['rv']['op'].get('k') in ('move', 'copy') and not last['rv']['op']['place']['p'] and hops2 < 4:
-                    yl = last['rv']['op']['place']['l']
+                src = last
+                hops2 = 0
+                while src['rv'].get('k') == 'use' and src['rv']['op'].get('k') in ('move', 'copy') and not src['rv']['op']['place']['p'] and hops2 < 4:
+                    yl = src['rv']['op']['place']['l']
                     prev = None
-                    for j in range(pos - 1, -1, -1):
-                        st = P['stmts'][j]
+                    for j2 in range(pos - 1, -1, -1):
+                        st = P['stmts'][j2]
                         if st.get('k') == 'assign' and st['place'].get('l') == yl:
-                            prev = (j, st) if not st['place']['p'] else None
+                            prev = (j2, st) if not st['place']['p'] else None
                             break
                     if prev is None:
                         break
-                    pos, last = prev
+                    pos, src = prev
                     hops2 += 1
-                if last['rv'].get('k') != 'aggregate' or last['rv'].get('agg') != 'adt':
+                if src['rv'].get('k') != 'aggregate' or src['rv'].get('agg') != 'adt':
                     continue
-                vidx = last['rv'].get('variant_idx')
+                vidx = src['rv'].get('variant_idx')
+                # follow the jump: blocks that only move the value on, then a block that branches on its discriminant
+                carried = []
+                ti = pt['target']
+                T = None
+                for _ in range(8):
+                    blk = blocks[ti]
+                    if blk is P or blk.get('cleanup'):
+                        break
+                    st_ = blk['stmts']
+                    if blk['term'].get('k') == 'goto' and all(x.get('k') == 'assign' and x['rv'].get('k') == 'use' for x in st_) and len(st_) <= 3:
+                        moved = False
+                        for x in st_:
+                            op = x['rv']['op']
+                            if op.get('k') in ('move', 'copy') and not op['place']['p'] and op['place']['l'] == cur and not x['place']['p']:
+                                cur = x['place']['l']
+                                moved = True
+                        if st_ and not moved:
+                            break
+                        carried.extend(st_)
+                        ti = blk['term']['target']
+                        continue
+                    if blk['term'].get('k') == 'switch' and st_ and len(st_) <= 6:
+                        ds = st_[-1]
+                        pre = st_[:-1]
+                        if ds.get('k') == 'assign' and ds['rv'].get('k') == 'discriminant' and not ds['rv']['place']['p'] and ds['rv']['place']['l'] == cur and \
+                                blk['term']['discr'].get('place') == ds['place'] and \
+                                not any(x.get('k') != 'assign' or x['place']['l'] == cur for x in pre):
+                            T = (blk, pre)
+                    break
+                if T is None:
+                    continue
+                blk, pre = T
                 tgt = None
-                for v, bb in T['term']['targets']:
+                for v, bb in blk['term']['targets']:
                     if v == vidx:
                         tgt = bb
                 if tgt is None:
-                    tgt = T['term']['otherwise']
-                if any(st.get('k') != 'assign' or st['place']['l'] == xl for st in pre):
-                    continue
-                P['stmts'].extend(copy.deepcopy(pre))          # side-effect-free assignments that precede the branch in T
+                    tgt = blk['term']['otherwise']
+                P['stmts'].extend(copy.deepcopy(carried))
+                P['stmts'].extend(copy.deepcopy(pre))
                 P['term'] = {'k': 'goto', 'target': tgt, 'line': pt.get('line'), 'syn': 'thread'}
                 n += 1
                 changed = True
@@ -1037,6 +1054,23 @@ def expand_for_each(doc):
 # ======================================================================================================================
 # N5 private struct fields keep their pinned names: a struct of the pinned tree whose fields have the same types (each type
 #    once, or the same sequence of types) but other names had its private fields renamed — rules address fields by name.
+
+def _param_of(b, op, depth=0):
+    """the parameter an operand is a plain copy of (through temporaries), or None"""
+    if op.get('k') not in ('copy', 'move') or op['place']['p'] or depth > 4:
+        return None
+    l = op['place']['l']
+    if 1 <= l <= b['arg_count']:
+        return l
+    defs = [st for blk in b['blocks'] for st in blk['stmts'] if st.get('k') == 'assign' and st['place'] == {'l': l, 'p': []}]
+    if len(defs) == 1 and defs[0]['rv'].get('k') == 'use':
+        return _param_of(b, defs[0]['rv']['op'], depth + 1)
+    if len(defs) == 1 and defs[0]['rv'].get('k') == 'ref' and defs[0]['rv']['place']['p'] == ['deref']:
+        # a whole reborrow `&*p` of a reference parameter
+        return _param_of(b, {'k': 'copy', 'place': {'l': defs[0]['rv']['place']['l'], 'p': []}}, depth + 1)
+    return None
+
+
 def pinned_field_names(doc):
     pinned = pinned_keys()
     crate = (doc.get('meta') or {}).get('crate', 'hpke')
@@ -1059,6 +1093,26 @@ def pinned_field_names(doc):
         elif sorted(ctys) == sorted(ptys) and len(set(ctys)) == len(ctys):
             byty = {x[1]: x[0] for x in pf}
             m = {f['name']: byty[f['ty']] for f in cur}
+        # fields of equal types: what the pinned constructor stores from which parameter decides which field is which
+        pc = (pinned.get(crate + ':ctors') or {}).get(a['path'])
+        if pc and len(set(ctys)) < len(ctys):
+            cb = next((b for b in doc['bodies'] if b['key'] == pc['key']), None)
+            curmap = None
+            if cb is not None:
+                for blk in cb['blocks']:
+                    for st in blk['stmts']:
+                        rv = st.get('rv') or {}
+                        if st.get('k') == 'assign' and rv.get('k') == 'aggregate' and rv.get('agg') == 'adt' and rv.get('adt') == a['path']:
+                            mm = {}
+                            for name, f in zip(rv.get('field_names') or [], rv.get('fields') or []):
+                                pi = _param_of(cb, f)
+                                if pi is not None:
+                                    mm[name] = pi
+                            if len(mm) == len(rv.get('field_names') or []):
+                                curmap = mm
+            if curmap and sorted(curmap.values()) == sorted(pc['map'].values()) and len(set(curmap.values())) == len(curmap):
+                byparam = {v: k for k, v in pc['map'].items()}
+                m = {c: byparam[pi] for c, pi in curmap.items()}
         # only private fields may be renamed silently (a public field is API)
         pvis = {x[0]: x[2] for x in pf}
         m = {c: p_ for c, p_ in m.items() if c != p_ and (pvis.get(p_) or '') != 'public'}
